@@ -2664,8 +2664,12 @@ class Head(Expr):
             ]
             return type(self.frame)(*operands)
         if isinstance(self.frame, Head):
+            # the rows available to the outer head are those the inner head
+            # collected, so the inner head decides how many partitions are read
             return Head(
-                self.frame.frame, min(self.n, self.frame.n), self.operand("npartitions")
+                self.frame.frame,
+                min(self.n, self.frame.n),
+                self.frame.operand("npartitions"),
             )
 
     def _simplify_up(self, parent, dependents):
